@@ -25,6 +25,7 @@ THEOREMS = {
         "MG.C07.backward_clears_upstream",
         "MG.C07.backward_clears_graph",
         "MG.C07.cleared_tensor_holds_no_strong_edge",
+        "MG.C07.disconnect_keeps_reported_grad",
     ],
     "MG.Proofs.C13": [
         "MG.C13.mkDupGraph_discards_family_grads",
@@ -374,7 +375,9 @@ MANIFEST = {
             "upstream), every completed backward ends in that state (backward_clears_graph), and a cleared tensor "
             "holds no strong reference into the graph other than to its base "
             "(cleared_tensor_holds_no_strong_edge); an in-place update discards the gradients of the base and of every "
-            "view of the updated family, for any view forest (C13.mkDupGraph_discards_family_grads). The model is "
+            "view of the updated family, for any view forest (C13.mkDupGraph_discards_family_grads); a left-over view that a "
+            "new view op disconnects from its base keeps reporting exactly the gradient it reported "
+            "(disconnect_keeps_reported_grad). The model is "
             "compared with MyGrad on random single- and multi-epoch programs (a leaf's gradient and its views' must read "
             "None the moment the leaf enters a non-view op or an in-place update); a dropped auxiliary branch of ~40 "
             "op/layer families must be dead after backward with gc disabled; the "
